@@ -17,14 +17,19 @@ import os
 from lib.verif import run_harness, read_jsonl
 
 PKG = "lnwallet"
-FILES = ["lnwallet/verif_chan_test.go"]
+FILES = ["lnwallet/verif_chan_test.go", "lnwallet/verif_chan_sqlite_test.go"]
 TEST = "^TestVerifChan$"
-WARM = [{"pkg": PKG, "files": FILES}]
+# kvdb_sqlite links lnd's sqlite-backed kvdb backend (pure Go, builds offline): a share of
+# the schedules keeps both channel DBs on it (VERIF_CHAN_BACKEND / VERIF_CHAN_SQLITE_PCT)
+TAGS = "verif kvdb_sqlite"
+WARM = [{"pkg": PKG, "files": FILES, "tags": TAGS}]
 CORPUS_DIR = os.path.join(os.path.dirname(os.path.dirname(os.path.abspath(__file__))),
                           "corpus", "chan")
 CORPUS_BASE = 1000000        # case numbers of corpus / script rows start here
 PARTIES = ("a", "b")
 RESOLVE = ("settle", "fail", "malformed")
+# step kinds that end with both sides restarting from disk + channel_reestablish
+RESTARTS = ("cut", "crashin")
 
 # error classes that are a property failure between two honest peers
 HARD_CLASSES = ("sig_invalid", "data_loss", "commit_sync")
@@ -86,7 +91,8 @@ def run_chan_harness(ctx, env=None, suffix="", timeout=1500, race=False, report=
     if env:
         e.update(env)
     uid = (ctx.uid() if ctx is not None else "chan") + suffix
-    rc, trace, out = run_harness(uid, PKG, FILES, TEST, env=e, timeout=timeout, race=race)
+    rc, trace, out = run_harness(uid, PKG, FILES, TEST, env=e, timeout=timeout, race=race,
+                                 tags=TAGS)
     run_chan_harness.last = {"rc": rc, "trace": trace, "log": out}
     if stream:
         return iter_chan_rows(trace)
@@ -148,7 +154,7 @@ def _step_dumps(i, st):
     rel = ex.get("reloaded")
     if st["op"][0] == "crash" and rel:
         yield "step %d reloaded" % i, st["op"][1], rel
-    if st["op"][0] == "cut" and rel:
+    if st["op"][0] in RESTARTS and rel:
         for p in PARTIES:
             if rel.get(p):
                 yield "step %d reloaded" % i, p, rel[p]
@@ -331,7 +337,7 @@ def _chains(row):
     for i, st in enumerate(row["steps"]):
         ex = st.get("extra") or {}
         rel = ex.get("reloaded")
-        if st["op"][0] == "cut" and rel:
+        if st["op"][0] in RESTARTS and rel:
             for p in PARTIES:
                 if rel.get(p):
                     see(i, p, rel[p])
@@ -470,7 +476,14 @@ def release_rule(row):
                              % (i, p, h, st[p]["disk"]["local_h"]))
         if op[0] == "crash" and ex.get("reloaded"):
             check_reload(i, op[1], ex["reloaded"], "reloaded copy")
-        if op[0] == "cut":
+        if op[0] == "crashin" and op[2] == "revoke" and (ex.get("reloaded") or {}).get(op[1]):
+            # the node died inside RevokeCurrentCommitment: the revoke_and_ack was never
+            # handed out, but if the new local commitment reached the disk the old height
+            # counts as revoked from now on (the secret goes out with the retransmission)
+            p = op[1]
+            if ex["reloaded"][p]["ltail"]["h"] == len(released[p]) + 1:
+                released[p].append(len(released[p]))
+        if op[0] in RESTARTS:
             for p in PARTIES:
                 if (ex.get("reloaded") or {}).get(p):
                     check_reload(i, p, ex["reloaded"][p], "restarted channel")
@@ -531,7 +544,7 @@ def _bad_result(op, res):
         return res not in SENDER_REJECTIONS
     if k in ("sign", "revoke", "deliver"):
         return res not in PROTOCOL_OUTCOMES
-    if k == "cut":
+    if k in RESTARTS:
         return res in ("reload_failed", "sync_failed")
     if k in ("crash", "side"):
         return True
@@ -553,6 +566,8 @@ def no_errors(row):
         for d in ex.get("delivered") or []:
             if d[2] != "ok" and d[2] not in PROTOCOL_OUTCOMES:
                 fails.append("step %d cut: delivering %s to %s: %s" % (i, d[1], d[0], d[2]))
+        if st["op"][0] == "crashin" and str(ex.get("call_res", "")).startswith("panic:"):
+            fails.append("step %d %s: the interrupted call panicked: %s" % (i, st["op"], ex["call_res"]))
         for k in ("err_a", "err_b", "err"):
             # ProcessChanSyncMsg may sign (owed revocation + owed commitment); a
             # constraint refusal there is the same outcome as a refused plain sign.
@@ -673,9 +688,11 @@ def reload_consistent(row):
             n += 1
             for f in _reload_vs_live(rel, st[p], p):
                 fails.append("step %d crash: %s%s" % (i, f, _side_before(row, i, p)))
-        if st["op"][0] == "cut" and ex.get("pre_reload") and ex.get("reloaded"):
+        if st["op"][0] in RESTARTS and ex.get("pre_reload") and ex.get("reloaded"):
             for p in PARTIES:
-                if not ex["reloaded"].get(p):
+                # (crashin: the party that died inside a call has no live reference state;
+                # what its reload must look like is judged by crashin_atomic)
+                if not ex["reloaded"].get(p) or not ex["pre_reload"].get(p):
                     continue
                 n += 1
                 for f in _reload_vs_live(ex["reloaded"][p], ex["pre_reload"][p], p):
@@ -685,6 +702,214 @@ def reload_consistent(row):
 
 
 reload_consistent.reloads = 0
+
+
+# ---------------------------------------------------------------------------
+# C02: persisted side tables, write-level crashes
+
+
+def _log_kinds(row):
+    """Per step i and party p: {log index: kind} of p's OWN update log as of AFTER step i
+    (kind = add | settle | fail | malformed | fee), reconstructed from the successful
+    update calls (an update gets index own_idx-before-the-call; a restart cuts the log
+    back to own_idx and later updates overwrite).  Yields (i, st, kinds_before, kinds_after)."""
+    kinds = {p: {} for p in PARTIES}
+    prev = {p: row["init"][p] for p in PARTIES}
+    for i, st in enumerate(row["steps"]):
+        before = {p: dict(kinds[p]) for p in PARTIES}
+        op = st["op"]
+        if op[0] in ("add", "fee") + RESOLVE and st["res"] == "ok":
+            kinds[op[1]][prev[op[1]]["own_idx"]] = op[0]
+        for p in PARTIES:
+            if isinstance(st.get(p), dict) and "ltail" in st[p]:
+                prev[p] = st[p]
+                for k in [k for k in kinds[p] if k >= st[p]["own_idx"]]:
+                    del kinds[p][k]
+        yield i, st, before, kinds
+
+
+def _tables_ok(d, who, own_kinds):
+    """Side tables of a reload dump (`diskx`) against the commitments of the same dump:
+    * revocation log: an entry for remote height-1 (the last revoked state), none for the
+      current / a future height;
+    * forwarding packages: exactly one per received revocation (heights 1..remote_h);
+    * unsignedAckedUpdates = the peer's updates our local commitment includes and our
+      remote TAIL commitment does not: log indexes [rtail.theirs, ltail.theirs);
+    * remoteUnsignedLocalUpdates = our non-add updates the remote tail commitment
+      includes and our local commitment does not: indexes in [ltail.ours, rtail.ours)."""
+    x = d.get("diskx")
+    if not x:
+        return []
+    fails = []
+    rh = d["disk"]["remote_h"]
+    for k in ("revlog_err", "fwdpkgs_err"):
+        if x.get(k):
+            fails.append("%s: %s=%s" % (who, k, x[k]))
+    want = [rh - 1] if rh > 0 else []
+    if x["revlog"] != want:
+        fails.append("%s: revocation log has entries for heights %s among %s, expected %s (remote height %d)"
+                     % (who, x["revlog"], [rh - 1, rh, rh + 1], want, rh))
+    heights = [f[0] for f in x["fwdpkgs"]]
+    if heights != list(range(1, rh + 1)):
+        fails.append("%s: forwarding packages at heights %s, expected 1..%d" % (who, heights, rh))
+    ua = x["unsigned_acked"]
+    want = list(range(d["rtail"]["theirs"], d["ltail"]["theirs"]))
+    if ua != want:
+        fails.append("%s: persisted unsignedAckedUpdates %s, expected the peer updates %s "
+                     "(acked by local height %d, not in the remote tail)" % (who, ua, want, d["ltail"]["h"]))
+    ru = x["remote_unsigned"]
+    lo, hi = d["ltail"]["ours"], d["rtail"]["ours"]
+    if not isinstance(ru, list) or any(not (lo <= i < hi) for i in ru):
+        fails.append("%s: persisted remoteUnsignedLocalUpdates %s outside [%d, %d)" % (who, ru, lo, hi))
+    elif own_kinds is not None:
+        want = [i for i in range(lo, hi) if own_kinds.get(i) not in (None, "add")]
+        unknown = [i for i in range(lo, hi) if i not in own_kinds]
+        if not unknown and ru != want:
+            fails.append("%s: persisted remoteUnsignedLocalUpdates %s, expected %s (own non-add "
+                         "updates in [%d, %d))" % (who, ru, want, lo, hi))
+    return fails
+
+
+def disk_tables(row):
+    """Every reload (crash observation, both sides of a cut / crashin, the reference reload
+    before a crashin) finds the channel's persisted side tables consistent with the
+    persisted commitments (see _tables_ok)."""
+    fails = []
+    n = 0
+    for i, st, kb, ka in _log_kinds(row):
+        ex = st.get("extra") or {}
+        op = st["op"]
+        if op[0] == "crash" and ex.get("reloaded"):
+            n += 1
+            fails += ["step %d crash: %s" % (i, f) for f in _tables_ok(ex["reloaded"], op[1], kb[op[1]])]
+        if op[0] == "crashin" and ex.get("reload_before"):
+            n += 1
+            fails += ["step %d crashin (before the call): %s" % (i, f)
+                      for f in _tables_ok(ex["reload_before"], op[1], kb[op[1]])]
+        if op[0] in RESTARTS and ex.get("reloaded"):
+            for p in PARTIES:
+                if ex["reloaded"].get(p):
+                    n += 1
+                    fails += ["step %d %s: %s" % (i, op[0], f)
+                              for f in _tables_ok(ex["reloaded"][p], p, kb[p])]
+        if len(fails) > 20:
+            break
+    disk_tables.reloads = n
+    return fails
+
+
+disk_tables.reloads = 0
+
+
+def _minus(d, keys):
+    return {k: v for k, v in d.items() if k not in keys}
+
+
+def _complete_call(call, rb, ra, live, who):
+    """Failures of 'ra is rb + the COMPLETE persisted effect of `call`' (rb / ra: reload
+    dumps of the party before the call / after the crash; live: its live dump before)."""
+    fails = []
+
+    def same(keys_excluded, what):
+        a, b = _minus(ra, keys_excluded), _minus(rb, keys_excluded)
+        for k in sorted(set(a) | set(b)):
+            if a.get(k) != b.get(k):
+                fails.append("%s: %s changed by %s: %s -> %s" % (who, k, what, b.get(k), a.get(k)))
+
+    xa, xb = ra.get("diskx") or {}, rb.get("diskx") or {}
+    if call == "sign":
+        same(("rtip", "own_idx", "own_htlc", "disk", "diskx", "own_fee_sorted"), "a sign")
+        if rb["rtip"] is not None or ra["rtip"] is None or ra["rtip"]["h"] != rb["rtail"]["h"] + 1:
+            fails.append("%s: no new pending remote commitment at height %d" % (who, rb["rtail"]["h"] + 1))
+        else:
+            if ra["own_idx"] != ra["rtip"]["ours"]:
+                fails.append("%s: own_idx %d != signed own updates %d" % (who, ra["own_idx"], ra["rtip"]["ours"]))
+            if ra["disk"] != dict(rb["disk"], pending_remote_h=ra["rtip"]["h"]):
+                fails.append("%s: disk heights %s -> %s" % (who, rb["disk"], ra["disk"]))
+        if xa != dict(xb, lwr=False):
+            fails.append("%s: side tables after a sign %s, expected those before with LastWasRevoke=false %s"
+                         % (who, xa, xb))
+    elif call == "revoke":
+        same(("ltail", "peer_idx", "peer_htlc", "disk", "diskx", "peer_fee_sorted"), "a revoke")
+        if ra["ltail"] != live.get("ltip"):
+            fails.append("%s: persisted local commitment %s is not the received one %s"
+                         % (who, ra["ltail"], live.get("ltip")))
+        if ra["peer_idx"] != ra["ltail"]["theirs"]:
+            fails.append("%s: peer_idx %d != acked peer updates %d" % (who, ra["peer_idx"], ra["ltail"]["theirs"]))
+        if ra["disk"] != dict(rb["disk"], local_h=rb["disk"]["local_h"] + 1):
+            fails.append("%s: disk heights %s -> %s" % (who, rb["disk"], ra["disk"]))
+        for k in ("revlog", "fwdpkgs"):
+            if xa.get(k) != xb.get(k):
+                fails.append("%s: %s changed by a revoke: %s -> %s" % (who, k, xb.get(k), xa.get(k)))
+        if xa.get("lwr") is not True:
+            fails.append("%s: LastWasRevoke is %s after a revoke" % (who, xa.get("lwr")))
+    elif call == "deliver":
+        same(("rtail", "rtip", "disk", "diskx", "revstate"), "a received revocation")
+        if rb["rtip"] is None or ra["rtip"] is not None or ra["rtail"] != rb["rtip"]:
+            fails.append("%s: remote tail %s is not the formerly pending commitment %s"
+                         % (who, ra["rtail"]["h"], rb["rtip"] and rb["rtip"]["h"]))
+        if ra["disk"] != dict(rb["disk"], remote_h=rb["disk"]["remote_h"] + 1, pending_remote_h=None):
+            fails.append("%s: disk heights %s -> %s" % (who, rb["disk"], ra["disk"]))
+        ca, cb = ra.get("revstate") or {}, rb.get("revstate") or {}
+        if ca.get("cur") != cb.get("next") or ca.get("store_ok") is not True or ca.get("next") in (None, cb.get("next")):
+            fails.append("%s: revocation state %s -> %s" % (who, cb, ca))
+        if xa and xb:
+            h = ra["disk"]["remote_h"]
+            if [f[0] for f in xa["fwdpkgs"]] != [f[0] for f in xb["fwdpkgs"]] + [h]:
+                fails.append("%s: forwarding packages %s -> %s" % (who, xb["fwdpkgs"], xa["fwdpkgs"]))
+            if xa.get("lwr") != xb.get("lwr"):
+                fails.append("%s: LastWasRevoke changed by a received revocation" % who)
+    else:
+        fails.append("%s: unknown call %s" % (who, call))
+    return fails
+
+
+def crashin_atomic(row):
+    """WRITE-LEVEL crash (`crashin`): the node died inside one state-machine call after the
+    k-th transaction of that call.  What it finds on disk afterwards is either exactly what
+    it would have found before the call (the call did not happen) or that plus the complete
+    persisted effect of the call - never something in between; with 0 committed
+    transactions it is the former, after a call that returned ok the latter.  (The
+    generic consistency of the tables is disk_tables, the behaviour after the restart is
+    judged by no_errors / agreement / release_rule / the model correspondence.)"""
+    fails = []
+    stats = crashin_atomic.stats = {}
+    prev = {p: row["init"][p] for p in PARTIES}
+    for i, st in enumerate(row["steps"]):
+        op, ex = st["op"], st.get("extra") or {}
+        if op[0] == "crashin" and ex.get("reload_before") and (ex.get("reloaded") or {}).get(op[1]):
+            p, call = op[1], op[2]
+            rb, ra = ex["reload_before"], ex["reloaded"][p]
+            m, refused, cres = ex.get("committed"), ex.get("refused"), ex.get("call_res")
+            key = "%s k=%s committed=%s %s" % (call if call != "deliver" else "deliver_" + str(ex.get("kind")),
+                                              op[3], m, "completed" if not refused else "cut short")
+            stats[key] = stats.get(key, 0) + 1
+            if refused and cres == "ok":
+                fails.append("step %d %s: a transaction was refused but the call returned ok" % (i, op))
+            untouched = ra == rb
+            complete = None
+            if not untouched:
+                complete = _complete_call(call, rb, ra, prev[p], p)
+            verdict = "before" if untouched else ("after" if not complete else "torn")
+            stats["-> " + verdict] = stats.get("-> " + verdict, 0) + 1
+            if verdict == "torn":
+                fails.append("step %d %s (committed %s of the call's transactions, %s refused): the reloaded "
+                             "state is neither the state before the call nor the state after it: %s"
+                             % (i, op, m, refused, "; ".join(complete[:4])))
+            elif m == 0 and verdict != "before":
+                fails.append("step %d %s: no transaction committed but the disk changed" % (i, op))
+            elif not refused and cres == "ok" and verdict != "after" and call != "deliver":
+                fails.append("step %d %s: the call completed (ok) but the disk shows no effect" % (i, op))
+            elif not refused and cres == "ok" and call == "deliver" and ex.get("kind") == "rev" \
+                    and verdict != "after":
+                fails.append("step %d %s: the revocation was processed (ok) but the disk shows no effect" % (i, op))
+        for p in PARTIES:
+            if isinstance(st.get(p), dict) and "ltail" in st[p]:
+                prev[p] = st[p]
+    return fails
+
+
+crashin_atomic.stats = {}
 
 
 def logs_ordered(row):
@@ -769,6 +994,8 @@ PREDICATES = [
     ("no_errors", no_errors),
     ("rejected_no_change", rejected_no_change),
     ("reload_consistent", reload_consistent),
+    ("disk_tables", disk_tables),
+    ("crashin_atomic", crashin_atomic),
     ("side_harmless", side_harmless),
     ("logs_ordered", logs_ordered),
     ("drained", drained),
@@ -793,10 +1020,12 @@ def all_predicates(row, only=None):
 def histograms(rows):
     """op / result / chan-type / cut statistics for ctx.cov."""
     ops, types, aborted, kinds, sync = {}, {}, {}, {}, {}
+    backends, ntx, crashin = {}, {}, {}
     heights = []
     nsteps = 0
     for r in rows:
         types[r["chan_type"]] = types.get(r["chan_type"], 0) + 1
+        backends[r.get("backend", "bbolt")] = backends.get(r.get("backend", "bbolt"), 0) + 1
         if r.get("aborted"):
             aborted[r["aborted"]] = aborted.get(r["aborted"], 0) + 1
         nsteps += len(r["steps"])
@@ -806,15 +1035,29 @@ def histograms(rows):
             ex = st.get("extra") or {}
             if st["op"][0] == "deliver" and "kind" in ex:
                 kinds[ex["kind"]] = kinds.get(ex["kind"], 0) + 1
-            if st["op"][0] == "cut":
+            if st["op"][0] in RESTARTS:
                 for p in PARTIES:
                     k = ",".join(ex.get("sync_" + p) or []) or "-"
                     sync[k] = sync.get(k, 0) + 1
+            for p, n in sorted((ex.get("ntx_sync") or {}).items()):
+                k = "restart+resync(%s):%d" % (",".join(ex.get("sync_" + p) or []) or "-", n)
+                ntx[k] = ntx.get(k, 0) + 1
+            if "ntx" in ex and st["res"] == "ok":
+                k = st["op"][0] if st["op"][0] != "deliver" else "deliver_" + str(ex.get("kind"))
+                k = "%s:%d" % (k, ex["ntx"])
+                ntx[k] = ntx.get(k, 0) + 1
+            if st["op"][0] == "crashin" and "committed" in ex:
+                k = "%s%s k=%s committed=%s%s [%s]" % (
+                    st["op"][2], "_" + ex["kind"] if ex.get("kind") else "", st["op"][3],
+                    ex["committed"], " (cut short)" if ex.get("refused") else "",
+                    r.get("backend", "bbolt"))
+                crashin[k] = crashin.get(k, 0) + 1
         last = r["steps"][-1] if r["steps"] else None
         if last and _has_dumps(last):
             heights.append(min(last["a"]["ltail"]["h"], last["b"]["ltail"]["h"]))
     heights.sort()
     return {"cases": len(rows), "steps": nsteps, "chan_types": types, "op_results": ops,
             "delivered_kinds": kinds, "resync_retransmissions": sync, "aborted": aborted,
+            "kvdb_backends": backends, "rw_transactions_per_call": ntx, "write_level_crashes": crashin,
             "min_final_height_median": heights[len(heights) // 2] if heights else None,
             "min_final_height_min": heights[0] if heights else None}
